@@ -2598,4 +2598,31 @@ theorem lastPlain_of_B {p : Pat} (h : p.lastPlainB = true) : p.lastPlain := by
 
 end Enumeration
 
+/-! ## witnesses of the known findings C01-enum-later-ref and C01-late-selfref-all -/
+
+/-- C01-enum-later-ref: `A as a -> all B where x > b.x as b -> C where x < b.x as c` on A, B{x:5}, B{x:9}, C{x:7} -/
+def c01EnumPat : Pat :=
+  { steps := [⟨"A", none, some "a", false⟩, ⟨"B", some (.cmpRef "x" .gt "b" "x"), some "b", true⟩,
+              ⟨"C", some (.cmpRef "x" .lt "b" "x"), some "c", false⟩], partition := none, negs := [] }
+def c01EnumEvs : List Event :=
+  [⟨0, "A", []⟩, ⟨1, "B", [("x", .int 5)]⟩, ⟨2, "B", [("x", .int 9)]⟩, ⟨3, "C", [("x", .int 7)]⟩]
+/-- the completed run's match: stack `[A, B5, B9, C7]` -/
+def c01EnumBase : Match :=
+  let st : List Entry := [⟨⟨0, "A", []⟩, some "a"⟩, ⟨⟨1, "B", [("x", .int 5)]⟩, some "b"⟩,
+                          ⟨⟨2, "B", [("x", .int 9)]⟩, some "b"⟩, ⟨⟨3, "C", [("x", .int 7)]⟩, some "c"⟩]
+  ⟨st, capsOf st⟩
+/-- the match reported for the combination `{B5}`: captures b = B5, c = C7 -/
+def c01EnumBad : Match := ⟨c01EnumBase.stack, ("b", ⟨1, "B", [("x", .int 5)]⟩) :: c01EnumBase.caps⟩
+
+/-- C01-late-selfref-all: `A as a -> all B as b -> all C where x > c.x as c -> D as d` on A, B, C{x:5}, C{x:3}, D -/
+def c01LatePat : Pat :=
+  { steps := [⟨"A", none, some "a", false⟩, ⟨"B", none, some "b", true⟩,
+              ⟨"C", some (.cmpRef "x" .gt "c" "x"), some "c", true⟩, ⟨"D", none, some "d", false⟩], partition := none, negs := [] }
+def c01LateEvs : List Event :=
+  [⟨0, "A", []⟩, ⟨1, "B", []⟩, ⟨2, "C", [("x", .int 5)]⟩, ⟨3, "C", [("x", .int 3)]⟩, ⟨4, "D", []⟩]
+def c01LateMatch : Match :=
+  let st : List Entry := [⟨⟨0, "A", []⟩, some "a"⟩, ⟨⟨1, "B", []⟩, some "b"⟩, ⟨⟨2, "C", [("x", .int 5)]⟩, some "c"⟩,
+                          ⟨⟨3, "C", [("x", .int 3)]⟩, some "c"⟩, ⟨⟨4, "D", []⟩, some "d"⟩]
+  ⟨st, capsOf st⟩
+
 end Varpulis.Sase
